@@ -17,7 +17,7 @@ use sciparse::{
     address::ip_addr::ScionIpAddr,
     dataplane_path::view::ScionDpPathView,
     identifier::{asn::Asn, isd::Isd, isd_asn::IsdAsn},
-    path::{ScionPath, fingerprint::data_plane::DpPathFingerprint, policy::acl::AclPolicy},
+    path::{ScionPath, fingerprint::data_plane::DpPathFingerprint, policy::{Policy, acl::AclPolicy, hop_pattern::HopPatternPolicy}},
     util::test_builder::TestPathBuilder,
 };
 use vcommon::*;
@@ -95,11 +95,12 @@ struct TablePolicy(Vec<(DpPathFingerprint, Option<u32>)>); // allowed (fingerpri
 impl PathPolicy for TablePolicy {
     fn predicate(&self, p: &ScionPath) -> bool { self.0.contains(&(p.fingerprint(), p.expiration())) }
 }
-enum Pol { None, Table(Vec<bool>), Acl(String), AclAndTable(String, Vec<bool>) }
+enum Pol { None, Table(Vec<bool>), Acl(String), AclAndTable(String, Vec<bool>), Hops(String) }
+fn hop_policy(s: &str) -> Policy { Policy::new(None, Some(HopPatternPolicy::parse(s).unwrap_or_else(|_| panic!("hop pattern {s}")))) }
 impl Pol {
     fn describe(&self) -> String {
         match self { Pol::None => "nopolicy".into(), Pol::Table(t) => format!("table{:?}", t.iter().map(|b| *b as u8).collect::<Vec<_>>()),
-            Pol::Acl(s) => format!("acl[{s}]"), Pol::AclAndTable(s, _) => format!("acl[{s}]+table") }
+            Pol::Acl(s) => format!("acl[{s}]"), Pol::AclAndTable(s, _) => format!("acl[{s}]+table"), Pol::Hops(s) => format!("hops[{s}]") }
     }
     fn table_policy(u: &Universe, t: &[bool]) -> TablePolicy {
         TablePolicy(u.paths.iter().zip(t).filter(|(_, b)| **b).map(|(p, _)| (p.path.fingerprint(), p.path.expiration())).collect())
@@ -110,6 +111,7 @@ impl Pol {
             Pol::Table(t) => vec![Arc::new(Self::table_policy(u, t))],
             Pol::Acl(s) => vec![Arc::new(AclPolicy::from_str(s).unwrap())],
             Pol::AclAndTable(s, t) => vec![Arc::new(AclPolicy::from_str(s).unwrap()), Arc::new(Self::table_policy(u, t))],
+            Pol::Hops(s) => vec![Arc::new(hop_policy(s))],
         }
     }
     /// the policy evaluated directly on every universe path, outside the manager
@@ -120,6 +122,7 @@ impl Pol {
             Pol::Table(t) => Some(t[i]),
             Pol::Acl(s) => AclPolicy::from_str(s).unwrap().path_allowed(&p.path).ok(),
             Pol::AclAndTable(s, t) => AclPolicy::from_str(s).unwrap().path_allowed(&p.path).ok().map(|b| b && t[i]),
+            Pol::Hops(s) => hop_policy(s).path_allowed(&p.path).ok(),
         }).collect()
     }
 }
@@ -335,16 +338,18 @@ fn gen_universe(rng: &mut Rng, cfg: &Cfg, n_routes: usize) -> Universe {
     let thr = c.min_expiry_threshold.as_secs(); let mind = c.min_refetch_delay.as_secs(); let rf = c.refetch_interval.as_secs();
     let mut paths = vec![];
     for &r in &routes {
-        let nver = 1 + rng.below(2) as usize;
+        let nver = 1 + rng.below(3) as usize;
         for v in 0..nver {
             let off: i64 = match rng.below(16) {
                 0 => thr as i64 - 1, 1 => thr as i64, 2 => thr as i64 + 1, 3 => (thr + mind) as i64 + 1, 4 => (thr + rf) as i64 + 1,
                 5 => -10, 6 => 1, 7 => (thr + 2 * rf + 50) as i64, 8 => (thr + mind / 2 + 3) as i64,
                 9 | 10 => (thr + rf / 2 + 7) as i64, 11 => (2 * thr + 90) as i64,
                 _ => (3 * rf + thr + 1000) as i64,
-            } + if v > 0 { rng.range(1, 400) as i64 } else { 0 };
+            } + v as i64 * (rf as i64 + rng.range(1, 400) as i64);   // later versions: refreshed by the control plane
             let meta = !rng.chance(1, 8);
-            paths.push(UPath { route: r, path: path_expiring(r, (T0 as i64 + off) as u64, meta), meta });
+            let cand = UPath { route: r, path: path_expiring(r, (T0 as i64 + off) as u64, meta), meta };
+            // path objects must be pairwise different (they are identified by equality)
+            if !paths.iter().any(|q: &UPath| q.path == cand.path) { paths.push(cand); }
         }
     }
     Universe { paths }
@@ -352,7 +357,8 @@ fn gen_universe(rng: &mut Rng, cfg: &Cfg, n_routes: usize) -> Universe {
 
 fn gen_pol(rng: &mut Rng, u: &Universe) -> Pol {
     let n = u.paths.len();
-    match rng.below(8) {
+    match rng.below(10) {
+        8 | 9 => Pol::Hops(rng.pick(&["0* 1-10 0*", "0 0 0", "0*", "1-1 0* 2-1", "0 1-20 0+", "0 0"]).to_string()),
         0 => Pol::None,
         1 | 2 | 3 => Pol::Table((0..n).map(|_| rng.chance(2, 3)).collect()),
         4 => Pol::Table(vec![false; n]),
@@ -431,7 +437,9 @@ async fn gen_random(rng: &mut Rng, prop: &str, len: usize) -> Option<Case> {
     let tot = w.tick + w.due + w.report + w.deliver + w.direct + w.send + w.sendwait;
     let script = move |rng: &mut Rng, r: &Runner, now: u64, k: usize| -> Option<Ev> {
         if k == 0 { return Some(Ev::Tick { now, ans: gen_answer(rng, &r.u) }); }
-        let ds = deltas(r, &cfg, now);
+        let mut ds = deltas(r, &cfg, now);
+        // mostly moderate advances (at most two refetch intervals), so that histories stay alive
+        if rng.chance(2, 3) { let lim = 2 * cfg.pc.refetch_interval.as_nanos() as u64 + 2 * NS; ds.retain(|d| *d <= lim); }
         let adv = if rng.chance(1, 3) { 0 } else { *rng.pick(&ds) };
         let t = now + adv;
         let mut x = rng.below(tot);
@@ -639,7 +647,7 @@ fn emit(c: &Case, shards: &mut Shards, sum: &mut Summary, seen: &mut std::collec
         sum.count(match e { Ev::Tick { .. } => "ev.tick", Ev::Report { .. } => "ev.report", Ev::Deliver { .. } => "ev.deliver", Ev::Direct { .. } => "ev.direct", Ev::Send { .. } => "ev.send", Ev::SendWait { .. } => "ev.sendwait" });
         sum.count(&format!("out.{}", o.out));
     }
-    sum.count(&format!("policy.{}", match c.pol { Pol::None => "none", Pol::Table(_) => "table", Pol::Acl(_) => "acl", Pol::AclAndTable(..) => "acl+table" }));
+    sum.count(&format!("policy.{}", match c.pol { Pol::None => "none", Pol::Table(_) => "table", Pol::Acl(_) => "acl", Pol::AclAndTable(..) => "acl+table", Pol::Hops(_) => "hop-pattern" }));
     if sum.samples.len() < 3 { sum.samples.push(human.clone()); }
     sum.index.push(human);
     seen.insert(text.clone());
@@ -708,14 +716,15 @@ fn main() {
         for k in 0..N_DIRECTED { if let Some(c) = gen_directed(k).await { emit(&c, &mut shards, &mut sum, &mut seen); } }
         let rest = n.saturating_sub(shards.total);
         let n_exh = rest * 2 / 5;
+        if thorough {
+            // every history of length 3 over the alphabet, under each of the three policies
+            let space3 = 3 * (ALPHABET as u64).pow(3);
+            for idx in 0..space3 { if let Some(c) = gen_exhaustive(&mut rng, idx, 3).await { emit(&c, &mut shards, &mut sum, &mut seen); } }
+        }
         let exh_len = if thorough { 5 } else { 4 };
         let space = 3 * (ALPHABET as u64).pow(exh_len as u32);
-        if thorough && (space as usize) <= n_exh {
-            for idx in 0..space { if let Some(c) = gen_exhaustive(&mut rng, idx, exh_len).await { emit(&c, &mut shards, &mut sum, &mut seen); } }
-        } else {
-            for _ in 0..n_exh { let idx = rng.below(space); let len = 1 + (rng.below(exh_len as u64) as usize);
-                if let Some(c) = gen_exhaustive(&mut rng, idx, len.max(2)).await { emit(&c, &mut shards, &mut sum, &mut seen); } }
-        }
+        for _ in 0..n_exh { let idx = rng.below(space); let len = 1 + (rng.below(exh_len as u64) as usize);
+            if let Some(c) = gen_exhaustive(&mut rng, idx, len.max(2)).await { emit(&c, &mut shards, &mut sum, &mut seen); } }
         while shards.total < n {
             let len = match rng.below(4) { 0 => 60, 1 => 30, _ => 12 };
             if let Some(c) = gen_random(&mut rng, &prop, len).await { emit(&c, &mut shards, &mut sum, &mut seen); }
